@@ -12,7 +12,9 @@ import (
 	"encoding/hex"
 	"fmt"
 	"math/rand"
+	"runtime"
 	"strings"
+	"sync"
 
 	"github.com/nelhage/taktician/ptn"
 	"github.com/nelhage/taktician/tak"
@@ -58,6 +60,9 @@ func emitC10F(c *ctx, p *tak.Position, kind string) {
 	c.stat("cases_format", 1)
 	c.stat("kind_"+kind, 1)
 	c.stat(fmt.Sprintf("size%d", p.Size()), 1)
+	if cls == "OK" && eq+heq+req+peq == 4 {
+		c10Good = append(c10Good, c10Rec{p, s})
+	}
 	if cls != "OK" || eq+heq+req+peq != 4 {
 		why := []string{}
 		if cls != "OK" {
@@ -77,6 +82,73 @@ func emitC10F(c *ctx, p *tak.Position, kind string) {
 		}
 		c.printf("ORACLE-FAIL %s | %s | FormatTPS=%q: %s | parsing the text back yields an equal position with the same hash, reserves, side and move number\n",
 			cl, enc(p), s, strings.Join(why, ", "))
+	}
+}
+
+// c10Good: positions whose sequential round trip was judged good, with their text; the concurrent family re-does them
+type c10Rec struct {
+	p *tak.Position
+	s string
+}
+
+var c10Good []c10Rec
+
+// c10Concurrent: FormatTPS and ParseTPS called from several goroutines at once on positions of different sizes (selfplay and the
+// analysis server do this); a pure codec gives every caller what it gives a sequential caller.
+func c10Concurrent(c *ctx, rounds int) {
+	if len(c10Good) == 0 {
+		return
+	}
+	old := runtime.GOMAXPROCS(0)
+	if old < 4 {
+		runtime.GOMAXPROCS(4)
+		defer runtime.GOMAXPROCS(old)
+	}
+	const workers = 6
+	var mu sync.Mutex
+	var bad []string
+	var calls int64
+	var wg sync.WaitGroup
+	for w := 0; w < workers; w++ {
+		wg.Add(1)
+		go func(w int) {
+			defer wg.Done()
+			n := 0
+			for k := 0; k < rounds; k++ {
+				rec := c10Good[(w*7919+k*31+k*k)%len(c10Good)]
+				what := ""
+				var s string
+				var q *tak.Position
+				var err error
+				if pk, msg := safely(func() { s = ptn.FormatTPS(rec.p); q, err = ptn.ParseTPS(rec.s) }); pk {
+					what = "panic: " + msg
+				} else if s != rec.s {
+					what = fmt.Sprintf("FormatTPS=%q", s)
+				} else if err != nil {
+					what = "ParseTPS: " + err.Error()
+				} else if !q.Equal(rec.p) || q.Hash() != rec.p.Hash() || q.MoveNumber() != rec.p.MoveNumber() {
+					what = "ParseTPS gives another position: " + enc(q)
+				}
+				n++
+				if what != "" {
+					mu.Lock()
+					bad = append(bad, fmt.Sprintf("ORACLE-FAIL concurrent-roundtrip-differs | %s ;; called while %d other goroutines format and parse positions of sizes 3..8 | %s | the sequential answer %q and an equal position back",
+						enc(rec.p), workers-1, what, rec.s))
+					mu.Unlock()
+					break
+				}
+			}
+			mu.Lock()
+			calls += int64(n)
+			mu.Unlock()
+		}(w)
+	}
+	wg.Wait()
+	c.stat("concurrent_calls", calls)
+	for i, b := range bad {
+		if i < 3 {
+			c.printf("%s\n", b)
+		}
 	}
 }
 
@@ -335,8 +407,18 @@ func c10ClientLines(c *ctx) {
 func runC10(c *ctx) {
 	if c.tier == "replay" {
 		in := readReplay(c).Input
+		conc := strings.Contains(in, " ;; ")
+		if i := strings.Index(in, " ;; "); i >= 0 {
+			in = in[:i]
+		}
 		if p, err := decodeEnc(in); err == nil {
 			emitC10F(c, p, "replay")
+			if conc {
+				for s := 3; s <= 8; s++ {
+					emitC10F(c, defaultBoard(c.r, s), "replay")
+				}
+				c10Concurrent(c, 4000)
+			}
 		} else if b, err := hex.DecodeString(strings.TrimSpace(in)); err == nil {
 			emitC10S(c, string(b), false)
 		}
@@ -383,4 +465,5 @@ func runC10(c *ctx) {
 		emitC10S(c, s, false)
 	}
 	c10ClientLines(c)
+	c10Concurrent(c, 1500*c.scale)
 }
